@@ -751,6 +751,12 @@ func (u *Unit) specCall(x *ast.CallExpr, env *Env, sc *specCtx) Value {
 		if named == nil || v.Sort != SVal {
 			unsup("isptr: unknown type or non-interface value")
 		}
+		if !hasTypeParam(named) {
+			if nn, ok := named.(*types.Named); ok && nn.TypeParams().Len() == 0 {
+				// a concrete pointer type has a type id (what the code's type assertions test)
+				return Value{Same(u.rtype(v.Term), IntLit(int64(u.typeID(types.NewPointer(named))))), boolT}
+			}
+		}
 		fn := dynIsName(types.NewPointer(named))
 		u.D.Fun(fn, SBool, SVal)
 		u.isaTyped(fn, v.Term)
